@@ -11,11 +11,11 @@ LS = ["a", "b", "c"]
 
 # ------------------------------------------------------------------ observation of the real object
 def views(A):
-    """the three dictionaries exactly as stored, in iteration order (lists of pairs)"""
+    """the three public views (properties graph_dict / out_dict / in_dict) and the start list, as lists of pairs"""
     return {
-        "g": [[v, [[l, w] for l, w in d.items()]] for v, d in A._graph_dict.items()],
-        "o": [[v, [[w, list(ls)] for w, ls in d.items()]] for v, d in A._out_dict.items()],
-        "i": [[v, [[w, list(ls)] for w, ls in d.items()]] for v, d in A._in_dict.items()],
+        "g": [[v, [[l, w] for l, w in d.items()]] for v, d in A.graph_dict.items()],
+        "o": [[v, [[w, list(ls)] for w, ls in d.items()]] for v, d in A.out_dict.items()],
+        "i": [[v, [[w, list(ls)] for w, ls in d.items()]] for v, d in A.in_dict.items()],
         "starts": list(A.start_vertices),
     }
 
@@ -30,6 +30,7 @@ def canon(vw):
     g = sorted(((v, sorted(map(tuple, d), key=lambda e: (e[0], key(e[1])))) for v, d in vw["g"]), key=lambda r: key(r[0]))
     o = sorted(((v, sorted(((w, sorted(ls)) for w, ls in d), key=lambda e: key(e[0]))) for v, d in vw["o"]), key=lambda r: key(r[0]))
     i = sorted(((v, sorted(((w, sorted(ls)) for w, ls in d), key=lambda e: key(e[0]))) for v, d in vw["i"]), key=lambda r: key(r[0]))
+    i = [r for r in i if r[1]]      # an empty incoming row and an absent one describe the same thing
     return {"g": [[v, [list(e) for e in d]] for v, d in g], "o": [[v, [[w, ls] for w, ls in d]] for v, d in o],
             "i": [[v, [[w, ls] for w, ls in d]] for v, d in i], "starts": vw["starts"]}
 
@@ -57,8 +58,8 @@ def coherence_problems(vw, ref=None):
     kg, ko, ki = [r[0] for r in vw["g"]], [r[0] for r in vw["o"]], [r[0] for r in vw["i"]]
     if set(kg) != set(ko):
         pb.append("vertex-sets-differ")
-    if set(ki) != set(ko):
-        pb.append("in-view-vertex-set-differs")
+    if not set(ki) <= set(ko):          # rows of vertices without incoming edges may be absent (created on demand)
+        pb.append("in-view-has-foreign-vertex")
     ends = {e[0] for e in g} | {e[2] for e in g}
     if not ends <= set(ko):
         pb.append("edge-endpoint-not-a-vertex")
